@@ -1297,3 +1297,49 @@ package mqtt
 // verif:func mqtt.NewInflights trusted
 //@ ensures r0 != nil && fresh(r0)
 // verif:func mqtt.Client.StopCause trusted pure
+
+// ======================================================================================
+// The restart path (C20): what server.readStore makes of the stored records
+// ======================================================================================
+// verif:ext context.WithCancel pure
+// verif:ext context.Background pure
+// verif:func mqtt.NewSubscriptions trusted
+//@ ensures r0 != nil && fresh(r0) && r0.internal != nil && fresh(r0.internal) && len(r0.internal) == 0
+// verif:func mqtt.NewTopicAliases trusted
+// verif:func mqtt.newClient
+//@ requires o != nil && o.options != nil && o.options.Capabilities != nil && c == nil
+//@ ensures r0 != nil && fresh(r0) && r0.ops == o && r0.State.Inflight != nil && r0.State.Subscriptions != nil && r0.State.Subscriptions.internal != nil
+// verif:func mqtt.Server.NewClient
+//@ requires s.Options != nil && s.Options.Capabilities != nil && c == nil && !inline
+//@ ensures r0 != nil && fresh(r0) && r0.ID == id && r0.Net.Listener == listener && r0.State.Inflight != nil && r0.State.Subscriptions != nil && r0.State.Subscriptions.internal != nil
+//@ ensures r0.ops != nil && r0.ops.options == s.Options && r0.ops.info == s.Info && r0.ops.hooks == s.hooks
+// verif:def restoredSession(cl *Client, c storage.Client) bool = cl != nil && cl.ID == c.ID && cl.Net.Listener == c.Listener && cl.Properties.Username == c.Username && (cl.Properties.Clean <==> c.Clean) && cl.Properties.ProtocolVersion == c.ProtocolVersion
+// verif:def restoredSessionProps(cl *Client, c storage.Client) bool = cl != nil && cl.Properties.Props.SessionExpiryInterval == c.Properties.SessionExpiryInterval && (cl.Properties.Props.SessionExpiryIntervalFlag <==> c.Properties.SessionExpiryIntervalFlag) && cl.Properties.Props.RequestProblemInfo == c.Properties.RequestProblemInfo && (cl.Properties.Props.RequestProblemInfoFlag <==> c.Properties.RequestProblemInfoFlag) && cl.Properties.Props.RequestResponseInfo == c.Properties.RequestResponseInfo && cl.Properties.Props.ReceiveMaximum == c.Properties.ReceiveMaximum && cl.Properties.Props.TopicAliasMaximum == c.Properties.TopicAliasMaximum && cl.Properties.Props.MaximumPacketSize == c.Properties.MaximumPacketSize
+// verif:def restoredWill(cl *Client, c storage.Client) bool = cl != nil && cl.Properties.Will.TopicName == c.Will.TopicName && cl.Properties.Will.Payload == c.Will.Payload && cl.Properties.Will.Qos == c.Will.Qos && (cl.Properties.Will.Retain <==> c.Will.Retain) && cl.Properties.Will.Flag == c.Will.Flag && cl.Properties.Will.WillDelayInterval == c.Will.WillDelayInterval
+// a stored session that ended with its connection (MQTT 5 expiry interval 0, MQTT 3 clean session) is not restored
+// verif:def endsWithConnection(c storage.Client) bool = (c.ProtocolVersion == 5 && c.Properties.SessionExpiryInterval == 0) || (c.ProtocolVersion < 5 && c.Clean)
+// verif:func mqtt.Server.loadClients modifies=all
+//@ requires s.Options != nil && s.Options.Capabilities != nil && s.Clients != nil && s.hooks != nil
+//@ callsite mqtt.Clients.Add C20-a-restored-session-has-the-stored-identity: arg0 == s.Clients && restoredSession(arg1, c) && !endsWithConnection(c)
+//@ callsite mqtt.Clients.Add C20-a-restored-session-has-the-stored-expiry-and-connect-properties: restoredSessionProps(arg1, c)
+//@ callsite mqtt.Clients.Add C20-a-restored-session-has-the-stored-will: restoredWill(arg1, c)
+//@ callsite mqtt.Server.UnsubscribeClient C20-only-a-session-that-ended-with-its-connection-is-dropped: endsWithConnection(c)
+// verif:loop mqtt.Server.loadClients 1
+//@ invariant s.Options != nil && s.Options.Capabilities != nil && s.Clients != nil && s.hooks != nil
+// verif:def restoredSubscription(sb packets.Subscription, r storage.Subscription) bool = sb.Filter == r.Filter && sb.Qos == r.Qos && sb.Identifier == r.Identifier && (sb.NoLocal <==> r.NoLocal) && sb.RetainHandling == r.RetainHandling && (sb.RetainAsPublished <==> r.RetainAsPublished)
+// verif:func mqtt.Server.loadSubscriptions modifies=all
+//@ requires s.Topics != nil && s.Topics.root != nil && s.Clients != nil
+//@ callsite mqtt.TopicsIndex.Subscribe C20-a-restored-subscription-has-the-stored-client-filter-and-options: arg0 == s.Topics && arg1 == sub.Client && restoredSubscription(arg2, sub)
+//@ callsite mqtt.Subscriptions.Add C20-a-restored-subscription-is-entered-in-its-sessions-own-list: arg1 == sub.Filter && restoredSubscription(arg2, sub) && has(s.Clients.internal, sub.Client) && arg0 == s.Clients.internal[sub.Client].State.Subscriptions
+// verif:loop mqtt.Server.loadSubscriptions 1
+//@ invariant s.Topics != nil && s.Topics.root != nil && s.Clients != nil
+// verif:func mqtt.Server.loadInflight modifies=all
+//@ requires s.Clients != nil
+//@ callsite mqtt.Inflight.Set C20-a-restored-in-flight-message-goes-to-its-sessions-in-flight-store: has(s.Clients.internal, msg.Client) && arg0 == s.Clients.internal[msg.Client].State.Inflight && arg1.PacketID == msg.PacketID && arg1.TopicName == msg.TopicName && arg1.FixedHeader.Type == msg.FixedHeader.Type && arg1.FixedHeader.Qos == msg.FixedHeader.Qos && arg1.Created == msg.Created && arg1.Expiry == msg.Expiry
+// verif:loop mqtt.Server.loadInflight 1
+//@ invariant s.Clients != nil
+// verif:func mqtt.Server.loadRetained modifies=all
+//@ requires s.Topics != nil
+//@ callsite mqtt.TopicsIndex.RetainMessage C20-a-restored-retained-message-is-put-back-under-its-topic: arg0 == s.Topics && arg1.TopicName == msg.TopicName && sameBytes(arg1.Payload, msg.Payload) && arg1.FixedHeader.Qos == msg.FixedHeader.Qos && arg1.Created == msg.Created && arg1.Expiry == msg.Expiry && arg1.ProtocolVersion == msg.Version
+// verif:loop mqtt.Server.loadRetained 1
+//@ invariant s.Topics != nil
